@@ -82,6 +82,44 @@ def run(ctx):
                         H.ok(key, sample={"return_annotation": str(ra), "return_type": str(rt), "yield_type": str(yt), "strategy": s.name, "result": d.get("result")})
                     elif st == "error":
                         raise RuntimeError(d)
+    # ---- REPLICATE end to end: the stub text of an annotated position is its source annotation
+    import ast, importlib, os, shutil, sys, tempfile
+    from monkeytype.tracing import CallTrace
+    H.section("replicated annotations with forward references", "source annotations with string / TypeVar arguments inside generics and Tuple[T, ...], REPLICATE: the stub's annotation text equals the source's",
+              "5 annotated positions")
+    tmp = tempfile.mkdtemp(prefix="verif_c13_")
+    sys.path.insert(0, tmp)
+    try:
+        src = ("from typing import Iterator, List, Tuple, Type, TypeVar\nT = TypeVar('T')\nclass Node:\n    pass\n"
+               "def walk(n) -> Iterator['Node']:\n    return iter(())\n"
+               "def make(cls: Type[T]) -> T:\n    return cls()\n"
+               "def tup(x: Tuple[int, ...], y: List['Node'] = None):\n    return x\n")
+        name = "c13rep%d" % ctx["seed"]
+        with open(os.path.join(tmp, name + ".py"), "w") as f:
+            f.write(src)
+        importlib.invalidate_caches()
+        mod = importlib.import_module(name)
+        text = stubs.build_module_stubs_from_traces([CallTrace(mod.walk, {"n": int}, None), CallTrace(mod.make, {"cls": type}, int), CallTrace(mod.tup, {"x": tuple}, int)], 0,
+                                                    existing_annotation_strategy=S.REPLICATE)[name].render()
+        want = {("walk", "return"): "Iterator['Node']", ("make", "cls"): "Type[T]", ("make", "return"): "T", ("tup", "x"): "Tuple[int, ...]", ("tup", "y"): "Optional[List['Node']]"}
+        got = {}
+        for fn in ast.walk(ast.parse(text)):
+            if isinstance(fn, ast.FunctionDef):
+                for a in fn.args.args:
+                    got[(fn.name, a.arg)] = ast.unparse(a.annotation) if a.annotation else None
+                got[(fn.name, "return")] = ast.unparse(fn.returns) if fn.returns else None
+        bad = {"%s.%s" % k: (got.get(k), v) for k, v in want.items() if got.get(k) != v}
+        if not bad:
+            H.ok("replicate-text", sample={"stub_tail": text[-200:]})
+        else:
+            generic = sorted(k for k in bad if k in ("walk.return", "make.cls", "make.return", "tup.x", "tup.y"))
+            H.violation("monkeytype.stubs:render_annotation", "C13-replicated-annotation-text|generic-args" if set(bad) <= {"walk.return", "make.cls", "make.return", "tup.x"} else "replicate-text:%s" % sorted(bad),
+                        "an annotated position does not keep its source annotation under REPLICATE (re-rendered from the evaluated object)", {"positions": generic}, {"stub (got) vs source (want)": bad})
+    except Exception as e:    # noqa
+        H.violation("monkeytype.stubs:render_annotation", "replicate-text-raises:%s" % type(e).__name__, "stub generation under REPLICATE raises", {}, repr(e)[:300])
+    finally:
+        sys.path.remove(tmp)
+        shutil.rmtree(tmp, ignore_errors=True)
     return H.result()
 
 
